@@ -27,18 +27,19 @@ MODELLED_NOT_VERIFIED = [
     "C03: clause (c) (update_bipartitions leaves a fresh encoding) is decided by the from-scratch oracle only; the Lean model carries "
     "the restructuring done by encode_bipartitions, not the masks (those are C01's)",
 ]
-EXPLANATION = ("Theorems (Props/C03.lean, no sorry/axioms): step_wf / history_wf - every operation of the 30-constructor alphabet (incl. assigning Tree.seed_node to an attached node) "
-               "and every finite history keeps the rose tree free of shared nodes (they do not say nodes are kept); "
-               "step_keeps_leaves_partial / history_keeps_leaves_partial - for 14 operations (suppress, basal collapse, root "
-               "polytomy, unweighted collapse, encode, ladderize, reorder, rotate, reseed/reroot at internal nodes, the "
-               "taxon/filter pruning family) a taxon-bearing leaf not asked to be removed stays a leaf, same node, same taxon "
-               "(_partial: the other 15 operations are decided by the oracle only); suppress_keeps_leaf_taxa; heap layer: "
-               "ofTree_repr, removeChild_repr (incl. removed node parentless), removeChild_frame, removeChild_refines; "
+EXPLANATION = ("Theorems (Props/C03.lean, no sorry/axioms): step_wf / history_wf - every operation of the 30-constructor alphabet "
+               "(incl. assigning Tree.seed_node to an attached node) and every finite history keeps the rose tree free of shared "
+               "nodes; step_keeps_leaves / history_keeps_leaves - for EVERY operation except shuffle_taxa and every history, on "
+               "a tree without shared nodes a taxon-bearing leaf that was not asked to be removed (nor given a child) stays a "
+               "leaf, same node, same taxon (clause (b) in identity form; the 14-operation step_keeps_leaves_partial / "
+               "history_keeps_leaves_partial need no well-formedness hypothesis); shuffle_keeps_leaf_taxa - shuffle_taxa "
+               "permutes the leaf taxa; suppress_keeps_leaf_taxa; heap layer: ofTree_repr, removeChild_repr (incl. removed node "
+               "parentless), removeChild_frame, removeChild_refines, addChild_repr, insertChild_repr (fresh node); "
                "polytomize_fixpoint, dropLeavesFix_fixpoint (fuel suffices). Not proved, only modelled and compared with the "
-               "code every run: heap refinement of add_child/insert_child/remove_child(suppress)/parent setter/Edge.collapse/"
-               "Edge.invert/reseed chain; clause (c) is decided by the oracle on the implementation after every step. The "
-               "driver runs `step` per operation AND `run` on whole histories (composed model histories are compared with the "
-               "implementation's final tree).")
+               "code every run: heap refinement of remove_child(suppress)/parent setter/Edge.collapse/Edge.invert/reseed chain "
+               "and of add/insert of an already attached or re-attached node; fuel of the filter_leaf_nodes loop and pruneUp; "
+               "clause (c) is decided by the oracle on the implementation after every step. The driver runs `step` per operation "
+               "AND `run` on whole histories (composed model histories are compared with the implementation's final tree).")
 
 DOC_ERRORS = ("ValueError", "TypeError", "SeedNodeDeletionException")
 FLAG_OPS_UB = {"reseed", "rerootnode", "rerootedge", "outgroup", "suppress", "collapseunweighted", "resolve", "resolve_rng",
